@@ -9,6 +9,9 @@ CHECKS = {
  "C07": ("exploration", "bounded-exhaustive enumeration of the template grammar x environment lattice against a reference evaluator (exhaustive input-space model checking of template.Substitute)",
          "Every template of the interpolation grammar up to an AST-node bound and every string over the error-side alphabet up to length 6/7 is evaluated by the real template.Substitute in every environment of the variable-state lattice and compared with a reference evaluator written from the statement; the enumeration is complete within the bounds, so a rule that is wrong for any operator/state/nesting combination within them is found.",
          "Trusted: refmodel/interp (100 lines, Appendix A.1). Nested required-errors in untaken branches are compared modulo the statement's silence.", "§4 C07", "E3 E5"),
+ "C18": ("exploration", "bounded-exhaustive enumeration of env files from the line grammar and of all byte strings up to a length bound against a reference dotenv evaluator",
+         "Every env file of 1..6 lines assembled from the documented line grammar (alphabet shrinking with length), with and without trailing newline and under 3 lookup functions, plus every byte string over a 12-symbol alphabet up to length 6 (7 thorough) and every distance-1 edit of the repository fixtures, is parsed by the real dotenv.ParseWithLookup and compared with a reference evaluator that classifies each input as defined / must-error / outside the documented sub-language.",
+         "Trusted: refmodel/dotenvref (Appendix A.2) and refmodel/interp. Inputs the statement does not define are checked for no-panic and map-xor-error only.", "§4 C18", "E3 E5"),
 }
 
 NOT_YET = {}
